@@ -392,6 +392,7 @@ func c12Flatten(r *R) {
 		depth, leaves = 3, 5
 	}
 	c12FlattenDeep(r)
+	c12Stateful(r)
 	for _, n := range nestings(depth, leaves, true) {
 		var got []int
 		var err error
@@ -491,4 +492,88 @@ func c12ReverseStr(r *R) {
 			r.Nontrivial("rs" + s)
 		}
 	}
+}
+
+
+// c12Stateful: "the part its predicate or key dictates" -- the verdict the callback gives when it is asked
+// about an element. A callback may be stateful (a counter: round-robin buckets, "take the first k", a
+// seen-set); the splitters ask it exactly once per element, in order (DropRightWhile: from the right).
+// Every slice of distinct values up to length 4 (5) x EVERY sequence of verdicts: the k-th call answers
+// verdicts[k], whatever element it is about.
+func c12Stateful(r *R) {
+	L := 4
+	if thorough {
+		L = 5
+	}
+	for n := 0; n <= L; n++ {
+		s := make([]int, n)
+		for i := range s {
+			s[i] = 10 + i
+		}
+		for mask := 0; mask < 1<<n; mask++ {
+			verdict := func(k int) bool { return mask>>k&1 == 1 }
+			var yes, no, rno []int
+			for i, v := range s {
+				if verdict(i) {
+					yes = append(yes, v)
+				} else {
+					no = append(no, v)
+				}
+			}
+			for k := 0; k < n; k++ { // DropRightWhile asks from the right: call k is about element n-1-k
+				if !verdict(k) {
+					rno = append(rno, s[n-1-k])
+				}
+			}
+			run := func(name string, want []int, call func(fn func(int) bool) []int) {
+				calls := 0
+				var asked []int
+				got := call(func(v int) bool {
+					asked = append(asked, v)
+					calls++
+					return calls <= n && verdict(calls-1)
+				})
+				r.Eval(name + "/stateful-callback")
+				wit := fmt.Sprintf("%s(%v, k-th call answers %0*b read right to left)", name, s, n, mask)
+				if calls != n {
+					r.Bad(name+"/callback-not-asked-exactly-once-per-element", wit, "the callback was asked %d times about %v, want once per element", calls, asked)
+					return
+				}
+				if !eqSlice(got, want) {
+					r.Bad(name+"/wrong-with-stateful-callback", wit, "got %v, want %v (callback asked about %v)", got, want, asked)
+				}
+			}
+			run("Filter", yes, func(fn func(int) bool) []int { return gogu.Filter(cp(s), fn) })
+			run("Reject", no, func(fn func(int) bool) []int { return gogu.Reject(cp(s), fn) })
+			run("DropWhile", no, func(fn func(int) bool) []int { return gogu.DropWhile(cp(s), fn) })
+			run("DropRightWhile", rno, func(fn func(int) bool) []int { return gogu.DropRightWhile(cp(s), fn) })
+			run("Partition[0]", yes, func(fn func(int) bool) []int { return gogu.Partition(cp(s), fn)[0] })
+			run("Partition[1]", no, func(fn func(int) bool) []int { return gogu.Partition(cp(s), fn)[1] })
+			// GroupBy: the k-th call returns bucket verdict(k)
+			calls := 0
+			got := gogu.GroupBy(cp(s), func(int) int {
+				calls++
+				if calls <= n && verdict(calls-1) {
+					return 1
+				}
+				return 0
+			})
+			r.Eval("GroupBy/stateful-callback")
+			wit := fmt.Sprintf("GroupBy(%v, k-th call returns bit k of %0*b)", s, n, mask)
+			if calls != n {
+				r.Bad("GroupBy/callback-not-asked-exactly-once-per-element", wit, "the key function was called %d times, want %d", calls, n)
+			} else if !eqSlice(got[1], yes) || !eqSlice(got[0], no) || len(got) != b2i(len(yes) > 0)+b2i(len(no) > 0) {
+				r.Bad("GroupBy/wrong-with-stateful-callback", wit, "got %v, want {1:%v 0:%v}", got, yes, no)
+			}
+		}
+	}
+	r.Nontrivial("stateful-a")
+	r.Nontrivial("stateful-b")
+}
+
+func b2i(b bool) int {
+	if b {
+		return 1
+	}
+	return 0
 }
